@@ -187,6 +187,7 @@ Definition spec_case (c : case) : sres :=
       | 92 => let p := arg c 1 * arg c 2 in SOk [SN (trunc a0 p); SN (N.shiftr p a0)]
       | 93 => SOk [SN (N.ones (N.min a1 a0))]
       | 97 => let b := if a0 =? 0 then 0 else 1 in SOk [SN b; SN b; SN 0; SN 1; SL [48]; SL [49]]
+      | 99 => SOk [SN 1]
       | _ => SFree
       end
   | Some (ka, a) =>
